@@ -74,10 +74,21 @@ def gen(tier, rng, scale):
                     if s >= e:
                         e = s + 1
                 starts.append((s, e))
-                items.append([rng.choice(["A", "A", "A", "KA"]), s, e, rel, v])
+                op = [rng.choice(["A", "A", "A", "KA"]), s, e, rel, v]
+                if rng.chance(1, 4):
+                    # the same address asked for immediately before and immediately after the operation, nothing else in between
+                    probe = [rng.choice(["L", "FI", "FR", "FA"]), max(0, rng.choice([s, s + 1, e - 1, e, s - 1]))]
+                    items += [list(probe), op, list(probe)]
+                else:
+                    items.append(op)
             elif r < 55 and starts:
                 s0, e0 = rng.choice(starts)
-                items.append([rng.choice(["R", "R", "KR"]), rng.choice([s0, s0, e0, s0 + 1])])
+                op = [rng.choice(["R", "R", "KR"]), rng.choice([s0, s0, e0, s0 + 1])]
+                if rng.chance(1, 4):
+                    probe = [rng.choice(["L", "FI", "FR", "FA"]), max(0, rng.choice([s0, s0 + 1, e0 - 1]))]
+                    items += [list(probe), op, list(probe)]
+                else:
+                    items.append(op)
             elif r < 58:
                 items.append(["C"])
             else:
